@@ -102,16 +102,19 @@ def hexLoop : Bytes → Nat → Nat
     | some d => hexLoop t (16 * y + d)
     | none => y
 
-/-- `String::hexToInt` = `(unsigned) strtoul(s, NULL, 16)`: blanks, optional `0x`, hex digits -/
+def isBlank (c : UInt8) : Bool := c == 32 || (9 ≤ c && c ≤ 13)
+
+def skipPlus : Bytes → Bytes
+  | 43 :: t => t
+  | s => s
+
+def skip0x : Bytes → Bytes
+  | 48 :: x :: h :: t => if (x == 120 || x == 88) && (hexVal h).isSome then h :: t else 48 :: x :: h :: t
+  | s => s
+
+/-- `String::hexToInt` = `(unsigned) strtoul(s, NULL, 16)`: blanks, optional `+`, optional `0x`, hex digits -/
 def hexToInt (s : Bytes) : Nat :=
-  let s := s.dropWhile (fun c => c == 32 || (9 ≤ c && c ≤ 13))
-  let s := match s with
-    | 43 :: t => t
-    | _ => s
-  let s := match s with
-    | 48 :: x :: h :: t => if (x == 120 || x == 88) && (hexVal h).isSome then h :: t else s
-    | _ => s
-  hexLoop s 0 % 4294967296
+  hexLoop (skip0x (skipPlus (s.dropWhile isBlank))) 0 % 4294967296
 
 /-- `strcmp(a,b) < 0` on NUL-free strings (the order of `Dic`) -/
 def ltBytes : Bytes → Bytes → Bool
